@@ -617,6 +617,8 @@ func runC15(c *mon.Ctx) {
 		}
 	})
 
+	encodeAliasing(c, "kern", c.N(200, 10000), kernAliasEncoders)
+
 	// ---- standard ligatures ----
 	c.Stratum("ligatures", c.N(256, 4096), func(k *mon.Case) {
 		r := k.Rng
